@@ -190,6 +190,18 @@ func main() {
 	}
 }
 
+// outDir: where evidence and replay files go. Runs against a scratch copy of
+// the repository (GOVC_REPO set: seeded changes, mutants) must not overwrite
+// the evidence of the real tree, so they write under /verif/.cache/scratch-out.
+func outDir() string {
+	if r := os.Getenv("GOVC_REPO"); r != "" && filepath.Clean(r) != "/repo" {
+		d := filepath.Join(verifDir, ".cache", "scratch-out")
+		os.MkdirAll(d, 0o755)
+		return d
+	}
+	return verifDir
+}
+
 func envInt(name string, def int) int {
 	if v := os.Getenv(name); v != "" {
 		if n, err := strconv.Atoi(v); err == nil {
